@@ -366,6 +366,15 @@ class T:
                 # the solver interprets log / exp / trig freely: its model is a counterexample only if the obligation also fails
                 # with the real functions (at the model's inputs or at sampled ones)
                 verdict, info = numeval.refute(asm, goal, res.get("_z3model"))
+                if verdict != "confirmed":
+                    # random assignments rarely satisfy equality-defined auxiliaries (sqrt, ceil, spec constants): fix only the
+                    # declared inputs and let the solver find the rest, with log/exp/trig pinned to their real values
+                    v2, m2 = numeval.refute_by_solving(asm, goal, res.get("_z3model"), self._input_consts())
+                    if v2 == "confirmed":
+                        res["_z3model"] = m2
+                        res["model"] = solve.model_to_dict(m2)
+                        res["backend"] = "%s; counter-model re-solved with log/exp/trig pinned to the real functions at its arguments" % res.get("backend")
+                        verdict = "confirmed*"
                 if verdict == "confirmed":
                     res["numeric_counterexample"] = {k: (v if isinstance(v, (bool, int)) else float(v)) for k, v in info.items()}
                     res["backend"] = "%s; failing input re-evaluated with the real log/exp/trig functions" % res.get("backend")
@@ -405,6 +414,31 @@ class T:
             self.samples.append({"obligation": "%s/%s/%s" % (self.prop, self.name, clause),
                                  "goal_head": str(goal)[:300], "n_assumptions": len(asm)})
         return self._record(clause, kind, res, extra)
+
+    def _input_consts(self):
+        """The z3 constants the task's declared inputs are made of."""
+        out, seen = [], set()
+
+        def walk(v, depth=0):
+            if depth > 4 or id(v) in seen:
+                return
+            seen.add(id(v))
+            if z3.is_expr(v):
+                if z3.is_const(v) and v.decl().kind() == z3.Z3_OP_UNINTERPRETED:
+                    out.append(v)
+            elif isinstance(v, L.SArr):
+                for x in v.flat():
+                    walk(x, depth + 1)
+            elif isinstance(v, SObj):
+                for x in v.fields.values():
+                    walk(x, depth + 1)
+            elif isinstance(v, (list, tuple)):
+                for x in v:
+                    walk(x, depth + 1)
+        for inp in self.inputs.values():
+            walk(getattr(inp, "snapshot", None) if getattr(inp, "snapshot", None) is not None else getattr(inp, "sym", None))
+            walk(getattr(inp, "sym", None))
+        return out
 
     def prove_paths(self, clause, paths, goal_of, kind="ensures", replay=None, only=None, timeout_ms=None):
         """One obligation: for every path, pc => goal_of(path)."""
